@@ -14,6 +14,7 @@ FAMILY = {
     "C05": "fam_ingest",
     "C10": "fam_crash",
     "C11": "fam_tar",
+    "C12": "fam_round",
     "C18": "fam_cred",
     "C06": "fam_store", "C07": "fam_store", "C08": "fam_store", "C09": "fam_store",
     "C01": "fam_copy", "C02": "fam_copy", "C03": "fam_copy", "C04": "fam_copy",
